@@ -67,3 +67,19 @@ def meta_ok(ctx, label, t):
             sh = tuple(t.cores[i].shape)
             ok &= len(sh) == 4 and sh == (t.ranks[i], t.row_dims[i], t.col_dims[i], t.ranks[i + 1])
     return ctx.check(label + ': metadata consistent with cores', bool(ok), detail=repr((t.order, t.row_dims, t.col_dims, t.ranks, [tuple(c.shape) for c in t.cores])))
+
+
+_OW = {}
+
+
+def free_policy(ctx, **kw):
+    """symbolic mode: reset the executor state and install a FreePolicy that also models in-place LAPACK (calibrated against
+    the real SciPy once per process).  No-op in concrete mode."""
+    if not ctx.sym:
+        return None
+    from symtt import state, lapack
+    if 'tab' not in _OW:
+        _OW['tab'] = lapack.calibrate_overwrite()
+    state.reset()
+    kw.setdefault('assume_sorted_spectrum', False)
+    return lapack.set_policy(lapack.FreePolicy(model_overwrite=True, overwrite_table=_OW['tab'], **kw))
